@@ -195,6 +195,10 @@ def main(argv=None):
       print('  selftest: %d breaking variants (%d detected, %d skipped), %d benign variants (%d silent)' % (
           selftest['break_total'], selftest['break_detected'], selftest['skipped'], selftest['benign_total'],
           selftest['benign_silent']))
+      if selftest.get('corpus_break_total') or selftest.get('corpus_benign_total'):
+        print('  stored corpus: %d/%d seeded changes reported; %d refactorings: %d silent, %d inconclusive, %d false alarms' % (
+            selftest['corpus_break_detected'], selftest['corpus_break_total'], selftest['corpus_benign_total'], selftest['corpus_benign_silent'],
+            selftest['corpus_benign_inconclusive'], selftest['corpus_benign_total'] - selftest['corpus_benign_silent'] - selftest['corpus_benign_inconclusive']))
     if not a.no_evidence and not a.replay:
       ev = evidence_for(prop, ctx, errors, a.tier, seed, wall, viol, kn, selftest)
       report.write_evidence(prop, ev)
